@@ -1645,7 +1645,13 @@ class FlowIR(object):
                     'no': False,
                 }[s.lower()]
 
-            for key, convert in [ ('replicate', int), ('aggregate', to_bool)]:
+            def to_int(value):
+                # VV: int(2.5) silently truncates to 2, the number of replicas must be a whole number
+                if isinstance(value, float) and value.is_integer() is False:
+                    raise ValueError("%s is not an integer" % value)
+                return int(value)
+
+            for key, convert in [ ('replicate', to_int), ('aggregate', to_bool)]:
                 label = '%s.workflowAttributes.%s' % (ref, key)
 
                 try:
